@@ -1963,3 +1963,354 @@ pub fn c15(args: &Args) -> Report {
     rep.set("configurations", json!(cfgs.iter().map(|c| c.label()).collect::<Vec<_>>()));
     rep
 }
+
+// ------------------------------------------------------------------------------------------------
+// C18: a size-sealed export never lets a client change a file's size
+
+const SEAL_FILES: [(&str, u64); 4] = [("s1", 1), ("s12288", 12288), ("s0", 0), ("s5000", 5000)];
+
+#[derive(Clone, Copy, Debug, PartialEq, Eq, Hash)]
+pub enum SOp {
+    /// open(file, access 0..3, extra flag 0 none / 1 O_APPEND / 2 O_TRUNC)
+    Open(usize, u8, u8),
+    /// create on the existing name (flags: 0 O_RDWR, 1 O_RDWR|O_TRUNC, 2 O_WRONLY|O_TRUNC|O_APPEND, 3 O_RDWR|O_EXCL)
+    Create(usize, u8),
+    /// write(offset kind 0: 0, 1: size-1, 2: size, 3: size+1; len; request flags 0: as opened, 1: |O_APPEND; write_flags)
+    Write(u8, u8, u8, u8),
+    /// setattr kinds: 0 size 0, 1 same size, 2 size+1, 3 mode, 4 times
+    Setattr(usize, u8, bool),
+    /// fallocate(mode index, range kind 0: inside, 1: straddling the end, 2: beyond, 3: block aligned inside)
+    Fallocate(u8, u8),
+    Release,
+}
+
+const SEAL_FALLOC: [i32; 8] = [
+    0,
+    libc::FALLOC_FL_KEEP_SIZE,
+    libc::FALLOC_FL_PUNCH_HOLE | libc::FALLOC_FL_KEEP_SIZE,
+    libc::FALLOC_FL_ZERO_RANGE,
+    libc::FALLOC_FL_ZERO_RANGE | libc::FALLOC_FL_KEEP_SIZE,
+    libc::FALLOC_FL_COLLAPSE_RANGE,
+    libc::FALLOC_FL_INSERT_RANGE,
+    libc::FALLOC_FL_UNSHARE_RANGE,
+];
+
+pub fn c18_alphabet(nfiles: usize) -> Vec<SOp> {
+    let mut v = Vec::new();
+    for f in 0..nfiles {
+        for acc in [1u8, 2] {
+            for extra in 0..3u8 {
+                v.push(SOp::Open(f, acc, extra));
+            }
+        }
+        v.push(SOp::Open(f, 0, 2));
+        for c in 0..4u8 {
+            v.push(SOp::Create(f, c));
+        }
+        for kind in 0..5u8 {
+            v.push(SOp::Setattr(f, kind, false));
+        }
+        v.push(SOp::Setattr(f, 0, true));
+        v.push(SOp::Setattr(f, 2, true));
+    }
+    for off in 0..4u8 {
+        for len in 0..3u8 {
+            for rf in 0..2u8 {
+                v.push(SOp::Write(off, len, rf, 0));
+            }
+        }
+        v.push(SOp::Write(off, 2, 0, 1));
+        v.push(SOp::Write(off, 2, 0, 4));
+    }
+    for m in 0..SEAL_FALLOC.len() as u8 {
+        for r in 0..4u8 {
+            v.push(SOp::Fallocate(m, r));
+        }
+    }
+    v.push(SOp::Release);
+    v
+}
+
+struct SealH {
+    fh: u64,
+    node: u64,
+    file: usize,
+    flags: i32,
+}
+
+pub struct SealWorld {
+    pub w: PtWorld,
+    handles: Vec<SealH>,
+    pub problems: Vec<(String, String)>,
+    nodes: BTreeMap<usize, u64>,
+}
+
+impl SealWorld {
+    pub fn new(cfg: &PtCfg, cl: &mut Client) -> SealWorld {
+        let w = PtWorld::new(cfg, cl, false);
+        for (n, sz) in SEAL_FILES {
+            let data: Vec<u8> = (0..sz).map(|i| b'A' + (i % 23) as u8).collect();
+            std::fs::write(w.exp.join(n), &data).unwrap();
+        }
+        SealWorld { w, handles: Vec::new(), problems: Vec::new(), nodes: BTreeMap::new() }
+    }
+
+    fn node(&mut self, cl: &mut Client, f: usize) -> Option<u64> {
+        if let Some(n) = self.nodes.get(&f) {
+            return Some(*n);
+        }
+        match cl.lookup(&self.w.subj, 1, SEAL_FILES[f].0.as_bytes()) {
+            Ok(e) => {
+                self.nodes.insert(f, e.nodeid);
+                Some(e.nodeid)
+            }
+            Err(_) => None,
+        }
+    }
+
+    /// Executes the op; returns Some(errno) of the main request, None if not applicable.
+    pub fn step(&mut self, cl: &mut Client, op: SOp) -> Option<i32> {
+        cl.creds(0, 0);
+        let zo = self.w.zero_message_open();
+        match op {
+            SOp::Open(f, acc, extra) => {
+                let node = self.node(cl, f)?;
+                let flags = (acc as i32) | match extra {
+                    1 => libc::O_APPEND,
+                    2 => libc::O_TRUNC,
+                    _ => 0,
+                };
+                if zo {
+                    self.handles.push(SealH { fh: 0, node, file: f, flags });
+                    return Some(libc::ENOSYS);
+                }
+                match cl.open(&self.w.subj, node, flags as u32) {
+                    Ok((fh, _)) => {
+                        self.handles.push(SealH { fh, node, file: f, flags });
+                        Some(0)
+                    }
+                    Err(e) => Some(e),
+                }
+            }
+            SOp::Create(f, c) => {
+                let flags = match c {
+                    0 => libc::O_RDWR,
+                    1 => libc::O_RDWR | libc::O_TRUNC,
+                    2 => libc::O_WRONLY | libc::O_TRUNC | libc::O_APPEND,
+                    _ => libc::O_RDWR | libc::O_EXCL,
+                };
+                match cl.create(&self.w.subj, 1, SEAL_FILES[f].0.as_bytes(), flags as u32, 0o644, 0o022) {
+                    Ok((e, fh, _)) => {
+                        self.nodes.insert(f, e.nodeid);
+                        self.handles.push(SealH { fh: if zo { 0 } else { fh }, node: e.nodeid, file: f, flags });
+                        Some(0)
+                    }
+                    Err(e) => Some(e),
+                }
+            }
+            SOp::Write(offk, len, rf, wf) => {
+                let h = self.handles.last()?;
+                let size = SEAL_FILES[h.file].1;
+                let off = match offk {
+                    0 => 0,
+                    1 => size.saturating_sub(1),
+                    2 => size,
+                    _ => size + 1,
+                };
+                let flags = h.flags | if rf == 1 { libc::O_APPEND } else { 0 };
+                let data = &b"##"[..len as usize];
+                let (node, fh) = (h.node, h.fh);
+                Some(match cl.write(&self.w.subj, node, fh, off, data, flags as u32, wf as u32) {
+                    Ok(_) => 0,
+                    Err(e) => e,
+                })
+            }
+            SOp::Setattr(f, kind, use_fh) => {
+                let node = self.node(cl, f)?;
+                let size = SEAL_FILES[f].1;
+                let mut fields: Vec<(&str, u64)> = Vec::new();
+                let mut valid = 0u64;
+                if use_fh {
+                    let h = self.handles.iter().rev().find(|h| h.node == node)?;
+                    valid |= k::FATTR_FH;
+                    fields.push(("fh", h.fh));
+                }
+                match kind {
+                    0 | 1 | 2 => {
+                        valid |= k::FATTR_SIZE;
+                        fields.push(("size", match kind {
+                            0 => 0,
+                            1 => size,
+                            _ => size + 1,
+                        }));
+                    }
+                    3 => {
+                        valid |= k::FATTR_MODE;
+                        fields.push(("mode", 0o100600));
+                    }
+                    _ => {
+                        valid |= k::FATTR_MTIME;
+                        fields.push(("mtime", 12345));
+                    }
+                }
+                fields.push(("valid", valid));
+                Some(match cl.setattr(&self.w.subj, node, &fields) {
+                    Ok(_) => 0,
+                    Err(e) => e,
+                })
+            }
+            SOp::Fallocate(m, r) => {
+                let h = self.handles.last()?;
+                let size = SEAL_FILES[h.file].1;
+                let (off, len) = match r {
+                    0 => (0u64, size.max(1).min(4)),
+                    1 => (size.saturating_sub(1), 2),
+                    2 => (size + 4096, 4096),
+                    _ => (4096, 4096),
+                };
+                let (node, fh) = (h.node, h.fh);
+                Some(cl.fallocate(&self.w.subj, node, fh, SEAL_FALLOC[m as usize] as u32, off, len))
+            }
+            SOp::Release => {
+                let h = self.handles.pop()?;
+                if zo {
+                    return Some(0);
+                }
+                Some(cl.release(&self.w.subj, h.node, h.fh, h.flags as u32, false))
+            }
+        }
+    }
+
+    pub fn check_sizes(&mut self, op: &SOp, errno: i32) {
+        for (n, sz) in SEAL_FILES {
+            match std::fs::symlink_metadata(self.w.exp.join(n)) {
+                Ok(m) => {
+                    if m.size() != sz {
+                        let k = format!("{:?}", op);
+                        let kind = k.split('(').next().unwrap_or("").to_string();
+                        let detail = match op {
+                            SOp::Open(_, _, extra) => format!("flag-{}", ["none", "O_APPEND", "O_TRUNC"][*extra as usize]),
+                            SOp::Create(_, c) => format!("flags-{}", ["O_RDWR", "O_TRUNC", "O_TRUNC+O_APPEND", "O_EXCL"][*c as usize]),
+                            SOp::Write(_, _, rf, wf) => format!("request-flags-{}-write-flags-{}", if *rf == 1 { "O_APPEND" } else { "as-opened" }, wf),
+                            SOp::Fallocate(mm, _) => format!("mode-{:#x}", SEAL_FALLOC[*mm as usize]),
+                            SOp::Setattr(_, kd, fh) => format!("kind-{}-fh-{}", kd, fh),
+                            SOp::Release => "".into(),
+                        };
+                        self.problems.push((format!("size-changed/{}/{}", kind, detail), format!("{} had {} bytes, has {} after {:?} (answered errno {})", n, sz, m.size(), op, errno)));
+                    }
+                }
+                Err(_) => self.problems.push(("sealed-file-vanished".into(), format!("{} is gone after {:?}", n, op))),
+            }
+        }
+    }
+}
+
+impl<'a> SeqRun<'a> {
+    fn c18_seq(&mut self, cfg: &PtCfg, seq: &[SOp]) -> bool {
+        let mut sealed = SealWorld::new(cfg, &mut self.cl);
+        let plain_cfg = PtCfg { seal_size: false, ..cfg.clone() };
+        let mut plain = SealWorld::new(&plain_cfg, &mut self.cl);
+        let n0 = self.cl.nreq;
+        for op in seq {
+            let Some(e1) = sealed.step(&mut self.cl, *op) else { return true };
+            let e2 = plain.step(&mut self.cl, *op).unwrap_or(-1);
+            sealed.check_sizes(op, e1);
+            // differential clause: if the same request leaves every size unchanged on an unsealed export,
+            // the sealed export must answer it the same way with the same effect
+            let plain_sizes_same = SEAL_FILES.iter().all(|(n, sz)| std::fs::symlink_metadata(plain.w.exp.join(n)).map(|m| m.size() == *sz).unwrap_or(false));
+            if sealed.problems.is_empty() && plain_sizes_same && e2 == 0 {
+                let k = format!("{:?}", op);
+                let kind = k.split('(').next().unwrap_or("").to_string();
+                if e1 != e2 {
+                    // refusing a request that could have changed the size is the point of sealing: only requests
+                    // that cannot change it are compared (writes fully inside, non-size setattr, open without O_TRUNC)
+                    let harmless = match op {
+                        SOp::Write(offk, len, rf, _) => *rf == 0 && ((*len == 0 && *offk <= 2) || (*len > 0 && *offk == 0 && (*len as u64) <= SEAL_FILES[sealed.handles.last().map(|h| h.file).unwrap_or(0)].1) || (*offk == 1 && *len == 1 && SEAL_FILES[sealed.handles.last().map(|h| h.file).unwrap_or(0)].1 >= 1)) && sealed.handles.last().map(|h| h.flags & libc::O_APPEND == 0).unwrap_or(true),
+                        SOp::Setattr(_, kd, _) => *kd >= 3,
+                        SOp::Open(_, _, extra) => *extra == 0,
+                        SOp::Release => true,
+                        SOp::Create(_, c) => *c == 0,
+                        SOp::Fallocate(mm, r) => *r == 0 && [0usize, 1, 2, 3, 4].contains(&(*mm as usize)) && SEAL_FILES[sealed.handles.last().map(|h| h.file).unwrap_or(0)].1 >= 4,
+                    };
+                    if harmless {
+                        sealed.problems.push((format!("within-size-request-treated-differently/{}", kind), format!("{:?}: sealed export answers errno {}, unsealed export answers {} and no size changes", op, e1, e2)));
+                    }
+                } else {
+                    for (n, _) in SEAL_FILES {
+                        if std::fs::read(sealed.w.exp.join(n)).ok() != std::fs::read(plain.w.exp.join(n)).ok() {
+                            sealed.problems.push((format!("within-size-request-different-effect/{}", kind), format!("{:?}: content of {} differs between the sealed and the unsealed export", op, n)));
+                            break;
+                        }
+                    }
+                }
+            }
+            if !sealed.problems.is_empty() {
+                break;
+            }
+        }
+        self.rep.eval();
+        self.rep.transitions += self.cl.nreq - n0;
+        let lk = format!("{:?}", seq.last().unwrap());
+        let last = lk.split('(').next().unwrap_or("").to_string();
+        self.rep.outcome(&format!("{}:{}", last, if sealed.problems.is_empty() { "sizes-unchanged" } else { "VIOLATION" }));
+        self.rep.state_of(&(cfg.label(), format!("{:?}", seq)));
+        self.rep.sample(|| json!({"config": cfg.label(), "sequence": format!("{:?}", seq)}));
+        let cut = !sealed.problems.is_empty();
+        let mut seen = BTreeSet::new();
+        for (class, msg) in &sealed.problems {
+            if !seen.insert(class.clone()) {
+                continue;
+            }
+            let seqs = format!("{:?}", seq);
+            let cfgl = cfg.label();
+            self.rep.violation(&format!("{}/{}", self.prop, class), msg, || json!({"engine": "ptfs-c18", "config": cfgl, "sequence": seqs}));
+        }
+        cut
+    }
+
+    fn c18_rec(&mut self, cfg: &PtCfg, seq: &mut Vec<SOp>, alphabet: &[SOp], depth: usize) {
+        let cut = self.c18_seq(cfg, seq);
+        if cut || seq.len() >= depth || self.rep.over_budget() {
+            return;
+        }
+        for op in alphabet {
+            // sequences are only extended by operations that can use what exists
+            seq.push(*op);
+            self.c18_rec(cfg, seq, alphabet, depth);
+            seq.pop();
+        }
+    }
+}
+
+pub fn c18(args: &Args) -> Report {
+    let mut rep = args.report();
+    let thorough = args.thorough();
+    let b = PtCfg { seal_size: true, ..PtCfg::base() };
+    let cfgs = vec![
+        b.clone(),
+        PtCfg { no_open: true, cache: 1, ..b.clone() },
+        PtCfg { behind_vfs: true, ..b.clone() },
+        PtCfg { ext4: true, ..b.clone() },
+        PtCfg { writeback: true, ..b.clone() },
+    ];
+    let depth = if thorough { 3 } else { 2 };
+    let alphabet = c18_alphabet(if thorough { 4 } else { 2 });
+    let mut idx = 0u64;
+    let mut run = SeqRun { rep: &mut rep, cl: Client::new(), prop: "C18" };
+    run.cl.cap = 1 << 17;
+    for cfg in &cfgs {
+        // every sequence starts by obtaining a handle (or is a single handle-less request)
+        for a in &alphabet {
+            if run.rep.mine(idx) {
+                let mut seq = vec![*a];
+                let d = if cfg.ext4 { 2 } else { depth };
+                run.c18_rec(cfg, &mut seq, &alphabet, d);
+            }
+            idx += 1;
+        }
+    }
+    rep.set("units_all_shards", json!(idx));
+    rep.set("depth", json!(depth));
+    rep.set("configurations", json!(cfgs.iter().map(|c| c.label()).collect::<Vec<_>>()));
+    rep
+}
